@@ -294,31 +294,50 @@ impl Serialize for FailingSer {
     }
 }
 
-/// the conversion flag is thread-local state: every sequence of up to `depth` conversions out of a
-/// small alphabet (plain, nested, failing, nested-failing, panicking inside, JSON serialisation of a
-/// value outside of any conversion) must leave the state clean after every step — a special value
-/// converted afterwards comes back as itself and JSON output is plain data
+/// the conversion flag and the registry of embedded values are thread-local state: every sequence of up
+/// to `depth` conversions out of a small alphabet (plain, nested, failing, nested-failing, panicking
+/// inside, JSON serialisation of a value outside of any conversion, the unsupported flattened Value,
+/// values of several kinds side by side, a failure after embedded values) must leave the state clean
+/// after every step — every embedded value (each one unique on its thread) comes back as itself and
+/// JSON output is plain data
 fn flag_histories(depth: usize, acc: &Acc) {
-    const OPS: usize = 6;
-    let special = || Value::from_safe_string("<s>".into());
+    const OPS: usize = 9;
+    // every embedded value is different from every other one the thread has seen, so that a value
+    // handed back from an earlier conversion cannot pass for the one that was put in
+    thread_local! { static SERIAL: std::cell::Cell<u64> = const { std::cell::Cell::new(0) }; }
+    let special = || {
+        let n = SERIAL.with(|s| {
+            s.set(s.get() + 1);
+            s.get()
+        });
+        Value::from_safe_string(format!("<s{}>", n))
+    };
+    let same = |what: &str, put: &Value, got: Option<Value>| -> Result<(), String> {
+        match got {
+            Some(g) if g.is_safe() && g.as_str() == put.as_str() => Ok(()),
+            other => Err(format!("{}: put in {:?}, came back as {:?}", what, put, other)),
+        }
+    };
+    #[derive(Serialize)]
+    struct Flat {
+        a: i32,
+        #[serde(flatten)]
+        more: Value,
+    }
     let run_op = |op: usize| -> Result<(), String> {
         match op {
             0 => {
-                let v = Value::from(Serde(&Wrap { v: special(), n: 1 }));
-                if !v.get_attr("v").map(|x| x.is_safe()).unwrap_or(false) {
-                    return Err("plain conversion lost the safe string".into());
-                }
+                let sp = special();
+                let v = Value::from(Serde(&Wrap { v: sp.clone(), n: 1 }));
+                same("plain conversion", &sp, v.get_attr("v").ok())?;
             }
             1 => {
-                let v = Value::from(Serde(&Around { before: special(), first: Forward(1), v: special(), last: Forward(Wrap { v: special(), n: 0 }), after: special() }));
-                for k in ["before", "v", "after"] {
-                    if !v.get_attr(k).map(|x| x.is_safe()).unwrap_or(false) {
-                        return Err(format!("field `{}` around a nested conversion lost the safe string", k));
-                    }
-                }
-                if !v.get_attr("last").and_then(|x| x.get_attr("v")).map(|x| x.is_safe()).unwrap_or(false) {
-                    return Err("value inside the nested conversion lost the safe string".into());
-                }
+                let (a, b, c, d) = (special(), special(), special(), special());
+                let v = Value::from(Serde(&Around { before: a.clone(), first: Forward(1), v: b.clone(), last: Forward(Wrap { v: c.clone(), n: 0 }), after: d.clone() }));
+                same("field `before` around a nested conversion", &a, v.get_attr("before").ok())?;
+                same("field `v` around a nested conversion", &b, v.get_attr("v").ok())?;
+                same("field `after` around a nested conversion", &d, v.get_attr("after").ok())?;
+                same("value inside the nested conversion", &c, v.get_attr("last").and_then(|x| x.get_attr("v")).ok())?;
             }
             2 => {
                 let _ = Value::from(Serde(&Around { before: special(), first: FailingSer, v: special(), last: 1, after: special() }));
@@ -335,11 +354,34 @@ fn flag_histories(depth: usize, acc: &Acc) {
                 }
                 let _ = catch(|| Value::from(Serde(&Around { before: special(), first: Forward(1), v: special(), last: Panicking, after: special() })));
             }
-            _ => {
-                let j = serde_json::to_string(&Value::from(vec![special(), Value::from(1)])).map_err(|e| e.to_string())?;
-                if j != "[\"<s>\",1]" {
+            5 => {
+                let sp = special();
+                let j = serde_json::to_string(&Value::from(vec![sp.clone(), Value::from(1)])).map_err(|e| e.to_string())?;
+                if j != format!("[\"{}\",1]", sp.as_str().unwrap()) {
                     return Err(format!("JSON of a value outside any conversion is {}", j));
                 }
+            }
+            6 => {
+                // the documented unsupported shape (a flattened Value): the conversion gives an invalid
+                // value which the embedding program may ignore
+                let _ = Value::from(Serde(&Flat { a: 1, more: Value::from_pairs([("b", 23)]) }));
+            }
+            7 => {
+                // values of three kinds next to each other, in a sequence
+                let (a, c) = (special(), special());
+                let v = Value::from(Serde(&vec![a.clone(), Value::UNDEFINED, c.clone()]));
+                same("first of a sequence", &a, v.get_item(&Value::from(0)).ok())?;
+                if !v.get_item(&Value::from(1)).map(|x| x.is_undefined()).unwrap_or(false) {
+                    return Err(format!("undefined in a sequence came back as {:?}", v.get_item(&Value::from(1))));
+                }
+                same("third of a sequence", &c, v.get_item(&Value::from(2)).ok())?;
+            }
+            _ => {
+                // a failing sibling *after* an embedded value, then the same shape without the failure
+                let _ = Value::from(Serde(&(special(), special(), FailingSer)));
+                let sp = special();
+                let v = Value::from(Serde(&(1, sp.clone())));
+                same("tuple after a failed tuple", &sp, v.get_item(&Value::from(1)).ok())?;
             }
         }
         if minijinja::value::serializing_for_value() {
@@ -347,7 +389,7 @@ fn flag_histories(depth: usize, acc: &Acc) {
         }
         Ok(())
     };
-    let names = ["plain", "nested", "failing", "nested_failing", "panicking_after_nested", "json_outside"];
+    let names = ["plain", "nested", "failing", "nested_failing", "panicking_after_nested", "json_outside", "flattened_value", "sequence_of_kinds", "failing_after_values"];
     let mut total = 0u64;
     for d in 1..=depth {
         for code in 0..OPS.pow(d as u32) {
